@@ -3,6 +3,9 @@ import LinOp.C20.ProofsPermQr
 import LinOp.C20.ProofsInterp
 import LinOp.C20.ProofsSparse
 import LinOp.C20.ProofsExtra
+import LinOp.C20.ProofsAdjoint
+import LinOp.C20.ProofsGetitemFold
+import LinOp.C20.ProofsBdsmm
 /-!
 C20 — utility kernels equal their dense definitions.  Property theorems only (proofs in `LinOp/C20/Proofs*.lean`).
 
@@ -347,5 +350,100 @@ theorem previous_code_D32_fat_jitter_wrong :
 theorem previous_code_D32_agreed_on_square_R {α : Type} [Field α] [LinearOrder α] (eps : α) (k : Nat) (R : M α) :
     stableQr false eps k k R = stableQr true eps k k R := by
   simp [stableQr]
+
+/-! ### round 3: adjointness, multi-step indexing, batched products -/
+
+/-- `left_interp` and `left_t_interp` are adjoint: `⟨W x, y⟩ = ⟨x, Wᵀ y⟩` for every number of rows `R`, columns `n` and
+interpolation points per row `K` (repeated indices allowed; only `idx[r,k] < n` is assumed). -/
+theorem interp_adjoint {α : Type} [CommRing α] (R K n : Nat) (idx : Nat → Nat → Nat) (val : Nat → Nat → α) (x y : Nat → α)
+    (h : ∀ r, r < R → ∀ k, k < K → idx r k < n) :
+    sumN R (fun r => leftInterpCore K idx val x r * y r) =
+      sumN n (fun c => x c * leftTInterpCore R K idx val y c) :=
+  _root_.LinOp.C20.interp_adjoint R K n idx val x y h
+
+-- satisfiable with repeated indices: two rows, both points of row 0 hit column 1
+example : ∀ r, r < 2 → ∀ k, k < 2 → (fun r k => if r = 0 then 1 else k) r k < 2 := by
+  intro r _ k hk; by_cases h : r = 0 <;> simp [h] <;> omega
+
+/-- `sparse_getitem` applied item by item (any list of (position, item) steps, in processing order) equals ONE multi-index
+selection: the final tensor at `r` is the operand at `liftLoop items shape r` (ints inserted, slice starts added), its shape is
+`shapeLoop items shape`, and every intermediate entry list stays well-formed.  `LoopOk` asks that each position is in range, ints
+are non-negative, slices have step 1 and `r` lies inside every slice. -/
+theorem getitem_loop_def {α : Type} [AddCommMonoid α] (items : List (Nat × Ix)) (s : Sp α) (r : List Nat)
+    (hents : ∀ e ∈ s.ents, e.1.length = s.shape.length) (hok : LoopOk items s.shape r) :
+    ∃ s', getitemLoop items s = .ok s' ∧ s'.shape = shapeLoop items s.shape ∧
+      (∀ e ∈ s'.ents, e.1.length = s'.shape.length) ∧
+      densify s'.ents r = densify s.ents (liftLoop items s.shape r) :=
+  _root_.LinOp.C20.getitem_loop_def items s r hents hok
+
+example : LoopOk [(1, Ix.slice (some 1) none none), (0, Ix.int 2)] [3, 4] [2] := by
+  simp [LoopOk, StepOk, liftLoop, liftStep, shapeStep, sliceBound]
+
+/-- the public function on a 2-D tensor, `S[a0:b0, a1:b1]` (processed last position first): entry `(j0, j1)` is `S[a0+j0, a1+j1]`. -/
+theorem sparse_getitem_slice_slice_def {α : Type} [AddCommMonoid α] (s : Sp α) (m n : Nat) (hs : s.shape = [m, n])
+    (hents : ∀ e ∈ s.ents, e.1.length = 2) (a0 b0 a1 b1 : Option Int) (j0 j1 : Nat)
+    (h0 : sliceBound m a0 0 + j0 < sliceBound m b0 m) (h1 : sliceBound n a1 0 + j1 < sliceBound n b1 n) :
+    ∃ t, sparseGetitem true s [.slice a0 b0 none, .slice a1 b1 none] = .ok (.inr t) ∧
+      t.shape = [sliceBound m b0 m - sliceBound m a0 0, sliceBound n b1 n - sliceBound n a1 0] ∧
+      densify t.ents [j0, j1] = densify s.ents [sliceBound m a0 0 + j0, sliceBound n a1 0 + j1] :=
+  _root_.LinOp.C20.sparse_getitem_slice_slice_def s m n hs hents a0 b0 a1 b1 j0 j1 h0 h1
+
+/-- `S[z, a1:b1]`. -/
+theorem sparse_getitem_int_slice_def {α : Type} [AddCommMonoid α] (s : Sp α) (m n : Nat) (hs : s.shape = [m, n])
+    (hents : ∀ e ∈ s.ents, e.1.length = 2) (z : Nat) (a1 b1 : Option Int) (j1 : Nat)
+    (h1 : sliceBound n a1 0 + j1 < sliceBound n b1 n) :
+    ∃ t, sparseGetitem true s [.int z, .slice a1 b1 none] = .ok (.inr t) ∧
+      t.shape = [sliceBound n b1 n - sliceBound n a1 0] ∧
+      densify t.ents [j1] = densify s.ents [z, sliceBound n a1 0 + j1] :=
+  _root_.LinOp.C20.sparse_getitem_int_slice_def s m n hs hents z a1 b1 j1 h1
+
+/-- `S[a0:b0, z]`. -/
+theorem sparse_getitem_slice_int_def {α : Type} [AddCommMonoid α] (s : Sp α) (m n : Nat) (hs : s.shape = [m, n])
+    (hents : ∀ e ∈ s.ents, e.1.length = 2) (a0 b0 : Option Int) (z : Nat) (j0 : Nat)
+    (h0 : sliceBound m a0 0 + j0 < sliceBound m b0 m) :
+    ∃ t, sparseGetitem true s [.slice a0 b0 none, .int z] = .ok (.inr t) ∧
+      t.shape = [sliceBound m b0 m - sliceBound m a0 0] ∧
+      densify t.ents [j0] = densify s.ents [sliceBound m a0 0 + j0, z] :=
+  _root_.LinOp.C20.sparse_getitem_slice_int_def s m n hs hents a0 b0 z j0 h0
+
+/-- `S[z0, z1]`: the returned scalar `sum(values)` is the dense entry (0 when nothing is stored there). -/
+theorem sparse_getitem_int_int_def {α : Type} [AddCommMonoid α] (s : Sp α) (m n : Nat) (hs : s.shape = [m, n])
+    (hents : ∀ e ∈ s.ents, e.1.length = 2) (z0 z1 : Nat) :
+    sparseGetitem true s [.int z0, .int z1] = .ok (.inl (densify s.ents [z0, z1])) :=
+  _root_.LinOp.C20.sparse_getitem_int_int_def s m n hs hents z0 z1
+
+/-- `bdsmm`, 2-D sparse × batched dense (the `(rows, batch·cols)` view), EVERY batch shape: `out[b] = S · D[b]`. -/
+theorem bdsmm_2d_batched_def {α : Type} [CommRing α] (fixed : Bool) (s : Sp α) (d : Tn α) (bshape : List Nat) (m n p : Nat)
+    (hb : bshape ≠ []) (hs : s.shape = [m, n]) (hd : d.shape = bshape ++ [n, p])
+    (hents : ∀ e ∈ s.ents, e.1.length = 2 ∧ e.1.getD 1 0 < n)
+    (b : List Nat) (hbox : InBox b bshape) (i c : Nat) (hc : c < p) :
+    ∃ t, bdsmm fixed s d = .ok t ∧ t.shape = bshape ++ [m, p] ∧
+      t.get (b ++ [i, c]) = sumN n fun j => densify s.ents [i, j] * d.get (b ++ [j, c]) :=
+  _root_.LinOp.C20.bdsmm_2d_batched_def fixed s d bshape m n p hb hs hd hents b hbox i c hc
+
+/-- `bdsmm`, batched sparse × batched dense of the same batch shape (block-diagonal flattening through the flat batch index,
+no repetition needed), EVERY batch shape: `out[b] = S[b] · D[b]` — the whole function, not only the flattening lemma. -/
+theorem bdsmm_batched_def {α : Type} [CommRing α] (s : Sp α) (d : Tn α) (bshape : List Nat) (m n p : Nat)
+    (hb : bshape ≠ []) (hs : s.shape = bshape ++ [m, n]) (hd : d.shape = bshape ++ [n, p])
+    (hents : ∀ e ∈ s.ents, e.1.length = bshape.length + 2 ∧ InBox (e.1.take bshape.length) bshape ∧
+               e.1.getD bshape.length 0 < m ∧ e.1.getD (bshape.length + 1) 0 < n)
+    (b : List Nat) (hbox : InBox b bshape) (i c : Nat) (hi : i < m) :
+    ∃ t, bdsmm true s d = .ok t ∧ t.shape = bshape ++ [m, p] ∧
+      t.get (b ++ [i, c]) = sumN n fun j => densify s.ents (b ++ [i, j]) * d.get (b ++ [j, c]) :=
+  _root_.LinOp.C20.bdsmm_batched_def s d bshape m n p hb hs hd hents b hbox i c hi
+
+/-- `bdsmm`, batched sparse × UNBATCHED dense (dense operand broadcast over the batch), EVERY batch shape: `out[b] = S[b] · D`. -/
+theorem bdsmm_batched_dense2d_def {α : Type} [CommRing α] (s : Sp α) (d : Tn α) (bshape : List Nat) (m n p : Nat)
+    (hb : bshape ≠ []) (hs : s.shape = bshape ++ [m, n]) (hd : d.shape = [n, p])
+    (hents : ∀ e ∈ s.ents, e.1.length = bshape.length + 2 ∧ InBox (e.1.take bshape.length) bshape ∧
+               e.1.getD bshape.length 0 < m ∧ e.1.getD (bshape.length + 1) 0 < n)
+    (b : List Nat) (hbox : InBox b bshape) (i c : Nat) (hi : i < m) :
+    ∃ t, bdsmm true s d = .ok t ∧ t.shape = bshape ++ [m, p] ∧
+      t.get (b ++ [i, c]) = sumN n fun j => densify s.ents (b ++ [i, j]) * d.get [j, c] :=
+  _root_.LinOp.C20.bdsmm_batched_dense2d_def s d bshape m n p hb hs hd hents b hbox i c hi
+
+example : InBox [1, 2] [2, 3] := by
+  refine List.Forall₂.cons (by omega) (List.Forall₂.cons (by omega) List.Forall₂.nil)
+
 
 end LinOp.C20.Property
